@@ -73,7 +73,7 @@ def cls(kind, cell):
 
 def run(ctx):
     thorough = ctx.tier == "thorough"
-    n = 1500 if thorough else 300
+    n = 6000 if thorough else 300
     ctx.tlc_ok("SchemaCases", CFG % n, workers=1, timeout=3000, heap="8g")
     cases = ctx.read_ndjson("c24_cases.ndjson")
     for i, c in enumerate(cases):
@@ -155,7 +155,7 @@ def run(ctx):
                       expected=v["why"], observed={"row_values": got, "failed": x["stage"] != "", "err": x["err"][:200], "rows_produced": len(x["rows"])}, note=v["why"])
     # ---------------- the binary: --describe, exit status, printed rows ----------------
     cli = climod.Cli(ctx)
-    sample = [c for c in cases if "obs" in c][: (400 if thorough else 80)]
+    sample = [c for c in cases if "obs" in c][: (800 if thorough else 80)]
     jobs = []
     for c in sample:
         jobs.append({"args": ["SELECT * FROM %s t" % os.path.basename(c["path"]), "--describe", "-o", "json"], "cwd": d})
